@@ -204,23 +204,24 @@ def getArg (args : List Value) (i : Nat) : Res Value :=
   | some v => .ok v
   | none => .panic
 
+/-- one fallible preliminary statement of a `to_ex_budget` arm -/
+def preStep (b : Builtin) (args : List Value) : Pre → Res Unit
+  | .asSize i => do let v ← getArg args i; let _ ← costAsSize b v; pure ()
+  | .unwrapListPanic i => do
+    let v ← getArg args i
+    match v with
+    | .con (.list _ _) => pure ()
+    | _ => .panic
+  | .unwrapListErr i => do let v ← getArg args i; let _ ← v.unwrapList; pure ()
+  | .unwrapInt i => do let v ← getArg args i; let _ ← v.unwrapInteger; pure ()
+  | .expModGuard i => do
+    let v ← getArg args i
+    let m ← v.unwrapInteger
+    if m ≤ 0 || m.natAbs.log2 ≥ 8191 then .err else pure ()
+
 def runPre (b : Builtin) (args : List Value) : List Pre → Res Unit
   | [] => .ok ()
-  | p :: ps =>
-    let r : Res Unit := match p with
-      | .asSize i => do let v ← getArg args i; let _ ← costAsSize b v; pure ()
-      | .unwrapListPanic i => do
-        let v ← getArg args i
-        match v with
-        | .con (.list _ _) => pure ()
-        | _ => .panic
-      | .unwrapListErr i => do let v ← getArg args i; let _ ← v.unwrapList; pure ()
-      | .unwrapInt i => do let v ← getArg args i; let _ ← v.unwrapInteger; pure ()
-      | .expModGuard i => do
-        let v ← getArg args i
-        let m ← v.unwrapInteger
-        if m ≤ 0 || m.natAbs.log2 ≥ 8191 then .err else pure ()
-    r.bind (fun _ => runPre b args ps)
+  | p :: ps => (preStep b args p).bind (fun _ => runPre b args ps)
 
 def measure (sem : Sem) (b : Builtin) (args : List Value) : Measure → Res Int
   | .exMem i => do let v ← getArg args i; pure (valueExMem .C v)
